@@ -5,6 +5,7 @@
 -/
 import LouProofs.C01
 import LouProofs.C04
+import LouProofs.C07
 import LouProofs.C06Pass
 import LouProofs.FwdOK
 import LouProofs.BackOK
@@ -72,6 +73,42 @@ theorem model_fwd_lengths (ti : TableInfo) (disp : Nat → Nat) (t : Table) (a :
     0 ≤ (fwd (some ti) disp (modelEngine t) a).outlen ∧
     (fwd (some ti) disp (modelEngine t) a).outlen ≤ a.outlen :=
   C04.fwd_lengths ti disp (modelEngine t) a (modelEngine_ok t).1 hret
+
+/-- with an engine that satisfies E1–E5 no entry of the composed position map is negative -/
+theorem fwdRun_nonneg (ti : TableInfo) (e : Engine) (a : Args) (he : EngineOKFwd e) (hn : EngineNonNeg e) :
+    ∀ p ∈ (fwdRun ti e a).posMapping, 0 ≤ p := by
+  unfold fwdRun fwdPassList
+  simp only [List.foldl_cons]
+  have h1 := fwdStep_first e (initFwd a (cutAtNul a.inbuf)) a.outlen
+    { input := cutAtNul a.inbuf, posMapping := [], output := [], cpos := (fwdCursorInit a).1,
+      cstat := (fwdCursorInit a).2, hist := [], first := true } (if ti.corrections = true then 0 else 1) he rfl
+  apply C04.foldl_nonneg e _ _ _ he _ _ h1.1
+  intro p hp
+  unfold fwdStep at hp
+  simp only [if_true] at hp
+  rcases List.mem_append.mp hp with h | h
+  · exact hn _ _ _ p h
+  · simp at h; subst h; omega
+
+/-- **model_fwd_roundtrip** (C07(3) with the modelled engines, no hypothesis left): mapping an output cell to its
+    input position and back never lands behind that cell -/
+theorem model_fwd_roundtrip (ti : TableInfo) (disp : Nat → Nat) (t : Table) (a : Args)
+    (h : (fwd (some ti) disp (modelEngine t) a).ret = 1) (hpos : 0 < (fwd (some ti) disp (modelEngine t) a).inlen)
+    (k : Nat) (hk : k < (fwdRun ti (modelEngine t) a).output.length) :
+    PosMap.scan (fwd (some ti) disp (modelEngine t) a).inlen (fwdRun ti (modelEngine t) a).output.length
+      (fwdRun ti (modelEngine t) a).posMapping (fun _ => -1)
+      (PosMap.clamp (fwd (some ti) disp (modelEngine t) a).inlen
+        (((fwdRun ti (modelEngine t) a).posMapping.take (fwdRun ti (modelEngine t) a).output.length).getD k 0)) ≤ k := by
+  have hi := fwdRun_inv ti (modelEngine t) a (modelEngine_ok t).1
+  have hnn := fwdRun_nonneg ti (modelEngine t) a (modelEngine_ok t).1 (modelEngine_ok t).2
+  generalize hs : fwdRun ti (modelEngine t) a = s at hi hnn hk ⊢
+  have hfw : fwd (some ti) disp (modelEngine t) a = fwdFinish disp a s := by unfold fwd; simp only []; rw [hs]
+  rw [hfw] at h hpos ⊢
+  have hlen : s.output.length < s.posMapping.length := by have := hi.len; omega
+  have hr := C07.fwd_roundtrip disp a s h hpos hlen (fun p hp => hnn p (List.mem_of_mem_take hp)) k hk
+  have hk' : k < (s.posMapping.take s.output.length).length := by rw [List.length_take]; omega
+  rw [List.getD_eq_getElem?_getD, List.getElem?_eq_getElem hk']
+  exact hr
 
 /-! ### backward -/
 
